@@ -62,3 +62,33 @@ def free_model(names):
             if g == "" or swapcase_inverse(h) != g:
                 m.delta[(g, h)] = h
     return m
+
+
+def match_multiset_fast(got, ref, tol, fallback):
+    """multiset comparison of two stacks of matrices for LARGE stacks:
+    (1) same order; (2) both sorted along a fixed generic linear functional and
+    compared row by row -- an explicit perfect matching within `tol` when it
+    succeeds (sound: it exhibits the matching); (3) otherwise the exact greedy
+    `fallback(got, ref, tol)`.  -> (ok, worst relative residual, index)."""
+    got = np.asarray(got, dtype=float)
+    ref = np.asarray(ref, dtype=float)
+    if got.shape != ref.shape:
+        return False, float("inf"), 0
+    n = got.shape[0]
+    if n == 0:
+        return True, 0.0, None
+    g = got.reshape(n, -1)
+    r = ref.reshape(n, -1)
+    scale = 1.0 + np.max(np.abs(g), axis=1)
+    same = np.max(np.abs(g - r), axis=1) / scale
+    if np.all(same <= tol):
+        return True, float(np.max(same)), None
+    # generic weights: fractional parts of multiples of sqrt(2), sqrt(3)
+    k = np.arange(1, g.shape[1] + 1)
+    w = 0.5 + np.mod(k * np.sqrt(2.0), 1.0) + 0.37 * np.mod(k * np.sqrt(3.0), 1.0)
+    og = np.argsort(g @ w, kind="stable")
+    orr = np.argsort(r @ w, kind="stable")
+    d = np.max(np.abs(g[og] - r[orr]), axis=1) / scale[og]
+    if np.all(d <= tol):
+        return True, float(np.max(d)), None
+    return fallback(got, ref, tol)
